@@ -1532,7 +1532,10 @@ fn c09_history<const N: usize>(
                     // byte (or at the stream start): must be delivered intact
                     let (last, before) = match mine.split_last() {
                         Some(x) => x,
-                        None => fail!("resync", "no feed call was attributed to segment {si} (harness/loop accounting)"),
+                        None => fail!(
+                            "resync",
+                            "well-formed frame {si} at stream pos {seg_start} ({glen} bytes, capacity {N}) follows a zero byte, yet no feed call ever started inside it: an earlier call consumed past its own sentinel and swallowed the whole frame"
+                        ),
                     };
                     for c in before {
                         if c.kind != Kind::Consumed {
